@@ -13,10 +13,13 @@ CONFIGS = [
 
 
 class LogixScenario:
-    def __init__(self, rng, size="small", config=None, slot=0, init_program_tags=True, project=None, open_driver=True):
+    def __init__(self, rng, size="small", config=None, slot=0, init_program_tags=True, project=None, open_driver=True, bench=None, host=None):
+        """bench / host: a second controller at another address on the SAME fake network (two drivers, two PLCs, one process)"""
         import pycomm3
         self.rng = rng
-        self.b = Bench(rng)
+        self.own_bench = bench is None
+        self.b = bench or Bench(rng)
+        self.host = host or self.b.host
         label, fw, micro, large = config or rng.choice(CONFIGS)
         self.label, self.fw, self.micro, self.large = label, fw, micro, large
         if project is None and size == "fixture":
@@ -38,7 +41,7 @@ class LogixScenario:
             # (the library strips "bp/0" once ListIdentity has told it what it is talking to)
             routes = {(): self.dev}
         self.target = rt.RefTarget(rng, front=self.dev, routes=routes, policy=pol, log=self.b.log)
-        self.b.set_target(self.target)
+        self.b.set_target(self.target, host=self.host)
         # Termination budget of one public call (socket operations, see FakeNet.op): finite, but sized for the largest legitimate
         # call of this scenario.  The unit is BYTES, not messages: the delivery schedule may hand the client one byte per recv(), so
         # a call legitimately needs up to one operation per byte it moves.  Bound: 64 requests, each moving the project's largest
@@ -48,8 +51,8 @@ class LogixScenario:
         tags_ = list(self.prj.symbols) + [t for p_ in self.prj.programs.values() for t in p_["symbols"]]
         biggest = max([len(getattr(t, "data", b"") or b"") for t in tags_] + [0])
         fragments = biggest // max(1, self.conn_size - 150) + 4
-        self.b.net.call_budget = max(60000, 2 * 64 * (biggest + 250 * fragments))
-        self.path = self.b.host if slot == 0 else f"{self.b.host}/{slot}"
+        self.b.net.call_budget = max(60000, 2 * 64 * (biggest + 250 * fragments), 0 if self.own_bench else (self.b.net.call_budget or 0))
+        self.path = self.host if slot == 0 else f"{self.host}/{slot}"
         self.drv = pycomm3.LogixDriver(self.path, init_program_tags=init_program_tags)
         self.opened = None
         if open_driver:
@@ -85,4 +88,5 @@ class LogixScenario:
         try:
             self.b.call("close", self.drv.close)
         finally:
-            self.b.close()
+            if self.own_bench:
+                self.b.close()
